@@ -1991,9 +1991,17 @@ def optimize_or(left: SymbolicExpression, right: SymbolicExpression) -> OR:
         # variables: they are not variables the two sides could disagree about
         return not isinstance(v.value, Literal) and not v.value._child_vars_
 
-    left_vars = left._unique_variables_.filter(ranges_over_a_domain)
-    right_vars = right._unique_variables_.filter(ranges_over_a_domain)
-    if set(left_vars.unwrapped_values) == set(right_vars.unwrapped_values):
+    def free_variables(expression: SymbolicExpression) -> typing.Set[Variable]:
+        # a variable that is quantified inside the expression (exists / for_all) is not one the two sides share
+        quantified = {
+            node.variable
+            for node in expression._all_nodes_
+            if isinstance(node, QuantifiedConditional)
+        }
+        domain_variables = expression._unique_variables_.filter(ranges_over_a_domain)
+        return set(domain_variables.unwrapped_values) - quantified
+
+    if free_variables(left) == free_variables(right):
         return ElseIf(left, right)
     else:
         return Union(left, right)
